@@ -13,11 +13,14 @@ Definition mk_world (pkgs : list pkginfo) (direct : list bytes) : world :=
 
 (* ---------- scripted generators (harness/internal/pipe: state.call) ---------- *)
 
+(* a scripted callback: what it renders, what it returns, the callbacks it registers itself when it runs *)
+Inductive sdefer := SD (body : bytes) (res : gresult) (nested : list sdefer).
 Record sstep := mk_step {
-  ss_body : bytes; ss_res : gresult; ss_count : bool; ss_helper : bool; ss_defers : list (bytes * gresult) }.
+  ss_body : bytes; ss_res : gresult; ss_count : bool; ss_helper : bool; ss_defers : list sdefer }.
 Record sgen := mk_sgen { sg_name : bytes; sg_alias : bool; sg_steps : list ((bytes * bytes) * sstep) }.
 
-Record sstate := { st_count : nat; st_helper : bool; st_defers : list (bytes * gresult) }.
+(* st_defers: every callback registered so far (c.defers); the model knows a callback by its index *)
+Record sstate := { st_count : nat; st_helper : bool; st_defers : list sdefer }.
 
 Definition empty_step : sstep := mk_step [] RNil false false [].
 
@@ -50,10 +53,12 @@ Definition script_gen (g : sgen) : generator := {|
         so_defers := seq (List.length (st_defers st)) (List.length (ss_defers step)) |});
   g_defer := fun st _ i =>
     match nth_error (st_defers st) i with
-    | Some (b, r) => (st, {| so_body := b; so_res := r; so_defers := [] |})
+    | Some (SD b r nested) =>
+        ({| st_count := st_count st; st_helper := st_helper st; st_defers := st_defers st ++ nested |},
+         {| so_body := b; so_res := r; so_defers := seq (List.length (st_defers st)) (List.length nested) |})
     | None => (st, {| so_body := []; so_res := RNil; so_defers := [] |})
     end;
-  g_fuel := 1000   (* the scripted callbacks register nothing: the queue is at most the script's length *)
+  g_fuel := 1000   (* the scripted callback forests are finite and small *)
 |}.
 
 (* ---------- env from tables ---------- *)
